@@ -20,7 +20,7 @@ CONSTANTS NodeNames, LinkNames, PatNames, CurveNames, SrcNames, CtlNames,
 VARIABLES nodes,     \* name -> [type: "J"|"T"|"R", pats: set of pattern names, curve: "" or curve name]
           links,     \* name -> [type: "pipe"|"hpump"|"ppump"|"PRV"|"TCV", a, b, pat, curve]
           pats,      \* set of pattern names
-          curves,    \* name -> "HEAD" | "VOLUME"
+          curves,    \* name -> the set of types ("HEAD", "VOLUME") the name was ever added with (see ReAddCurve)
           srcs,      \* name -> [node, pat]
           ctls,      \* name -> set of required element names
           out,       \* outcome of the last operation: "ok" | "refused"
@@ -51,7 +51,7 @@ View == [nodes |-> Dom(nodes), junctions |-> OfNodeType("J"), tanks |-> OfNodeTy
          head_pumps |-> OfLinkType({"hpump"}), power_pumps |-> OfLinkType({"ppump"}),
          valves |-> OfLinkType({"PRV", "TCV"}), prvs |-> OfLinkType({"PRV"}), tcvs |-> OfLinkType({"TCV"}),
          patterns |-> pats, curves |-> Dom(curves), sources |-> Dom(srcs), controls |-> Dom(ctls),
-         pump_curves |-> {c \in Dom(curves) : curves[c] = "HEAD"}, volume_curves |-> {c \in Dom(curves) : curves[c] = "VOLUME"},
+         pump_curves |-> {c \in Dom(curves) : "HEAD" \in curves[c]}, volume_curves |-> {c \in Dom(curves) : "VOLUME" \in curves[c]},
          ends |-> [l \in Dom(links) |-> <<links[l].a, links[l].b>>],
          node_usage |-> [n \in Dom(nodes) |-> NodeUsage(n)],
          pat_usage |-> [p \in pats |-> PatUsage(p)],
@@ -65,8 +65,12 @@ Refuse(op, args) == UNCHANGED data /\ Log(op, args, "refused")
 CanRecord == ~Record \/ Len(hist) < MaxLen
 
 PatOpt == {""} \cup pats
-CurveOpt(t) == {""} \cup {c \in Dom(curves) : curves[c] = t}
+CurveOpt(t) == {""} \cup {c \in Dom(curves) : t \in curves[c]}
 
+\* a head pump names its curve: any name - one that exists is from then on also listed as a pump curve whatever it was
+\* added as, one that does not exist (yet) is only recorded as used (names are bound late; GIS import adds pumps before
+\* curves) and is listed once it exists under the type it is then added with
+AsPumpCurve(c) == IF c \in Dom(curves) THEN [curves EXCEPT ![c] = @ \cup {"HEAD"}] ELSE curves
 AddNode(n, t, p, c) ==
   /\ CanRecord /\ n \notin Dom(nodes)
   /\ (t = "T" => p = "") /\ (t # "T" => c = "")
@@ -77,10 +81,11 @@ AddLink(l, t, a, b, c) ==
   /\ (t = "hpump" => c # "") /\ (t # "hpump" => c = "")
   /\ (t = "PRV" => nodes[a].type = "J" /\ nodes[b].type = "J")     \* add_valve refuses PRV/PSV/FCV next to a tank/reservoir
   /\ links' = Put(links, l, [type |-> t, a |-> a, b |-> b, pat |-> "", curve |-> c])
-  /\ UNCHANGED <<nodes, pats, curves, srcs, ctls>> /\ Log("add_link", <<l, t, a, b, c>>, "ok")
+  /\ curves' = AsPumpCurve(c)
+  /\ UNCHANGED <<nodes, pats, srcs, ctls>> /\ Log("add_link", <<l, t, a, b, c>>, "ok")
 AddPattern(p) == /\ CanRecord /\ p \notin pats /\ pats' = pats \cup {p}
                  /\ UNCHANGED <<nodes, links, curves, srcs, ctls>> /\ Log("add_pattern", <<p>>, "ok")
-AddCurve(c, t) == /\ CanRecord /\ c \notin Dom(curves) /\ curves' = Put(curves, c, t)
+AddCurve(c, t) == /\ CanRecord /\ c \notin Dom(curves) /\ curves' = Put(curves, c, {t})
                   /\ UNCHANGED <<nodes, links, pats, srcs, ctls>> /\ Log("add_curve", <<c, t>>, "ok")
 AddSource(s, n, p) == /\ CanRecord /\ s \notin Dom(srcs) /\ n \in Dom(nodes)
                       /\ srcs' = Put(srcs, s, [node |-> n, pat |-> p])
@@ -102,6 +107,14 @@ DanglingLink(l, t, a, b) == /\ Record /\ CanRecord /\ l \notin Dom(links)
 
 \* a source name that is taken
 DupSource(x, n) == /\ Record /\ CanRecord /\ x \in Dom(srcs) /\ n \in Dom(nodes) /\ Refuse("add_source", <<x, n, "">>)
+\* a pattern / control name that is taken
+DupPattern(p) == /\ Record /\ CanRecord /\ p \in pats /\ Refuse("add_pattern", <<p>>)
+\* add_curve under a name that exists replaces the curve (the INP reader adds a curve once per tank / pump / valve that
+\* shares it): its users keep the name, and the name is listed under every type it was ever added with ("you could end up
+\* with a curve that is used for more than one type", set_curve_type)
+ReAddCurve(c, t) == /\ CanRecord /\ c \in Dom(curves) /\ curves' = [curves EXCEPT ![c] = @ \cup {t}]
+                    /\ UNCHANGED <<nodes, links, pats, srcs, ctls>> /\ Log("add_curve", <<c, t>>, "ok")
+DupControl(k, l) == /\ Record /\ CanRecord /\ k \in Dom(ctls) /\ l \in Dom(links) /\ Refuse("add_control", <<k, l, "">>)
 \* (a head pump may name a curve that is added later - GIS import does so -, therefore a missing curve is not a refusal)
 
 \* removal is refused while the element is used or required by a control; a refusal changes nothing
@@ -143,9 +156,10 @@ SetSpeedPattern(l, p) ==
   /\ links' = [links EXCEPT ![l].pat = p]
   /\ UNCHANGED <<nodes, pats, curves, srcs, ctls>> /\ Log("set_speed_pattern", <<l, p>>, "ok")
 SetPumpCurve(l, c) ==
-  /\ CanRecord /\ l \in Dom(links) /\ links[l].type = "hpump" /\ c \in CurveOpt("HEAD") \ {""}
+  /\ CanRecord /\ l \in Dom(links) /\ links[l].type = "hpump" /\ c # ""
   /\ links' = [links EXCEPT ![l].curve = c]
-  /\ UNCHANGED <<nodes, pats, curves, srcs, ctls>> /\ Log("set_pump_curve", <<l, c>>, "ok")
+  /\ curves' = AsPumpCurve(c)
+  /\ UNCHANGED <<nodes, pats, srcs, ctls>> /\ Log("set_pump_curve", <<l, c>>, "ok")
 SetVolCurve(n, c) ==
   /\ CanRecord /\ n \in Dom(nodes) /\ nodes[n].type = "T" /\ c \in CurveOpt("VOLUME") \ {""}
   /\ nodes' = [nodes EXCEPT ![n].curve = c]
@@ -182,12 +196,12 @@ Init == /\ IF Preload = 0
            THEN nodes = <<>> /\ links = <<>> /\ pats = {} /\ curves = <<>>
            ELSE /\ nodes = [n \in {"n1", "n2"} |-> J0]
                 /\ links = [l \in {"l1"} |-> [type |-> "pipe", a |-> "n1", b |-> "n2", pat |-> "", curve |-> ""]]
-                /\ pats = {"p1"} /\ curves = [c \in {"c1"} |-> "HEAD"]
+                /\ pats = {"p1"} /\ curves = [c \in {"c1"} |-> {"HEAD"}]
         /\ srcs = <<>> /\ ctls = <<>>
         /\ out = "ok" /\ hist = <<>>
 Next ==
   \/ \E n \in NodeNames, t \in {"J", "T", "R"}, p \in PatOpt, c \in CurveOpt("VOLUME") : AddNode(n, t, p, c)
-  \/ \E l \in LinkNames, t \in {"pipe", "hpump", "ppump", "PRV", "TCV"}, a, b \in Dom(nodes), c \in CurveOpt("HEAD") :
+  \/ \E l \in LinkNames, t \in {"pipe", "hpump", "ppump", "PRV", "TCV"}, a, b \in Dom(nodes), c \in {""} \cup CurveNames :
         AddLink(l, t, a, b, c)
   \/ \E n \in Dom(nodes), t \in {"J", "T"} : DupNode(n, t)
   \/ \E l \in Dom(links), t \in {"pipe", "ppump"}, a, b \in Dom(nodes) : DupLink(l, t, a, b)
@@ -203,18 +217,21 @@ Next ==
   \/ \E l \in LinkNames : RemoveLink(l)
   \/ \E l \in LinkNames, w \in {"start", "end"}, n \in Dom(nodes) : SetEnd(l, w, n)
   \/ \E l \in LinkNames, p \in pats : SetSpeedPattern(l, p)
-  \/ \E l \in LinkNames, c \in Dom(curves) : SetPumpCurve(l, c)
+  \/ \E l \in LinkNames, c \in CurveNames : SetPumpCurve(l, c)
   \/ \E n \in NodeNames, c \in Dom(curves) : SetVolCurve(n, c)
   \/ \E n \in NodeNames, p \in pats : SetHeadPattern(n, p) \/ AddDemand(n, p)
   \/ \E n \in NodeNames : ClearHeadPattern(n) \/ ClearVolCurve(n)
   \/ \E l \in LinkNames : ClearSpeedPattern(l)
   \/ \E x \in SrcNames, n \in Dom(nodes) : DupSource(x, n) \/ SetSourceNode(x, n)
+  \/ \E q \in pats : DupPattern(q)
+  \/ \E c \in Dom(curves), t \in {"HEAD", "VOLUME"} : ReAddCurve(c, t)
+  \/ \E k \in Dom(ctls), l \in Dom(links) : DupControl(k, l)
 Spec == Init /\ [][Next]_vars
 
 \* ------------------------------------------------------------------ properties (C14) on the abstract model
 EndNodesExist == \A l \in Dom(links) : links[l].a \in Dom(nodes) /\ links[l].b \in Dom(nodes)       \* C14.end_nodes_exist
 RefsExist == /\ \A n \in Dom(nodes) : nodes[n].pats \subseteq pats /\ (nodes[n].curve = "" \/ nodes[n].curve \in Dom(curves))
-             /\ \A l \in Dom(links) : (links[l].pat = "" \/ links[l].pat \in pats) /\ (links[l].curve = "" \/ links[l].curve \in Dom(curves))
+             /\ \A l \in Dom(links) : (links[l].pat = "" \/ links[l].pat \in pats) /\ (links[l].curve # "" => links[l].type = "hpump")
              /\ \A s \in Dom(srcs) : srcs[s].node \in Dom(nodes) /\ (srcs[s].pat = "" \/ srcs[s].pat \in pats)
              /\ \A k \in Dom(ctls) : ctls[k] \subseteq Dom(nodes) \cup Dom(links)
 TypedPartition == /\ OfNodeType("J") \cup OfNodeType("T") \cup OfNodeType("R") = Dom(nodes)
